@@ -497,6 +497,17 @@ func ruleC16R4(c *Ctx) {
 						if _, isGo := s.(*ssa.Go); isGo {
 							return false
 						}
+						// a verifying call (after seed c16h: looking a map key up in the schema, or testing it against another
+						// list, derives from the field too but verifies nothing of the nested steps)
+						vname := ""
+						if s.Common().IsInvoke() {
+							vname = s.Common().Method.Name()
+						} else if f := s.Common().StaticCallee(); f != nil {
+							vname = f.Name()
+						}
+						if !strings.HasPrefix(vname, "Verify") && !strings.HasPrefix(vname, "verify") {
+							return false
+						}
 						if s.Common().IsInvoke() && mentions(s.Common().Value, isFieldAddrOf(fname)) {
 							return true
 						}
